@@ -5,7 +5,7 @@ from checks.c05 import Cmd, Num, num, gen_cmd, gen_seq, gen_seq_safe, safe_dur, 
 
 ID = "C06"
 LEAN_MODULE = "Ctrmml.Properties.C06"
-THEOREMS = ["C06_per_track_state", "C06_leading_blanks_skip", "C06_bar_skip", "C06_comment_invariant", "C06_comment_line_invariant", "C06_track_id_map", "C06_track_list_ids", "C06_star_decimal", "C06_multitrack_unfold", "C06_conditional_select_partial", "C06_separator_suffices", "C06_layout_run_partial", "C06_layout_invariant_partial", "C06_multitrack_eq_single_partial", "C06_multitrack_blocks_run_partial", "C06_multitrack_eq_single_blocks_partial", "C06_nested_separator_counterexample", "C06_short_block_counterexample"]
+THEOREMS = ["C06_per_track_state", "C06_leading_blanks_skip", "C06_bar_skip", "C06_comment_invariant", "C06_comment_line_invariant", "C06_track_id_map", "C06_track_list_ids", "C06_star_decimal", "C06_multitrack_unfold", "C06_conditional_select_partial", "C06_separator_suffices", "C06_layout_run_partial", "C06_layout_invariant_partial", "C06_multitrack_eq_single_partial", "C06_multitrack_blocks_run_partial", "C06_multitrack_eq_single_blocks_partial", "C06_alternatives_clean", "C06_nested_separator_counterexample", "C06_short_block_counterexample"]
 LEVEL = "proof"
 STREAM = "mml.layouts"
 CHUNK = 100
